@@ -35,6 +35,7 @@ def run(ctx: Ctx):
     valid_idxs_table(ctx)
     valid_idxs_single_mesh(ctx)
     count_sources(ctx)
+    exact_measure_selection(ctx)
     response_edits(ctx)
     valid_elements_chain(ctx)
     nan_mapping(ctx)
@@ -828,3 +829,30 @@ def axis_order(ctx: Ctx):
     ctx.check_expr("axis-order.consumer", "cube.py::Cube._valid_idxs", SUMMARIZER.summarize(vidx.node),
                    ["tuple((np.ix_(*tuple((d.valid_elements.element_idxs for d in self._all_dimensions)))[i] for i in self._all_dimensions.dimension_order))"])
     ctx.count("axis-order consumers", 2)
+
+
+TOLERANCE_CALLS = ("np.allclose", "np.isclose", "math.isclose", "np.testing.assert_allclose", "np.array_equiv")
+
+
+def exact_measure_selection(ctx: Ctx):
+    """Which measure a cube REPORTS (weighted counts or the unweighted ones, a valid-count measure or the counts) is decided
+    by presence and exact equality of what the response carries.  A tolerance comparison (`np.allclose`, `np.isclose`,
+    `math.isclose`) in the code that reads the measures classifies a weighted response whose cells lie within the tolerance
+    of the unweighted counts as unweighted: `Cube.counts` then reports the unweighted tabulation."""
+    ctl = ast.parse("def f(self):\n    w = self._cube_dict['result']['measures']['count']['data']\n    if np.allclose(w, self._cube_dict['result']['counts']):\n        return None\n    return np.array(w)\n")
+    if len([c for c in ast.walk(ctl) if isinstance(c, ast.Call) and u(c.func) in TOLERANCE_CALLS]) != 1:
+        raise AnalysisError("exact-selection: the positive control is no longer recognised")
+    mod = ctx.repo.module("cube.py")
+    n, hits = 0, []
+    for ci in mod.classes.values():
+        for m in ci.members.values():
+            n += 1
+            for c in ast.walk(m.node):
+                if isinstance(c, ast.Call) and u(c.func) in TOLERANCE_CALLS:
+                    hits.append((f"cube.py::{ci.name}.{m.name}", u(c)[:100]))
+    ctx.count("cube.py members scanned for tolerance comparisons", n)
+    ctx.require_min("cube.py members scanned for tolerance comparisons", 80)
+    for where, text in hits:
+        ctx.violated("exact-selection", where, text, "presence tests and exact equality (==, np.array_equal) of the payload", "values within the tolerance are taken for equal: a nearly-unit-weighted response is reported unweighted")
+    if not hits:
+        ctx.held("exact-selection", "cube.py: every member", f"{n} members, no tolerance comparison of payload data", "", "positive control recognised")
